@@ -13,7 +13,7 @@
    After the script, or after the first call that returns an error, the writer is dropped. *)
 EXTENDS Naturals, Sequences, FiniteSets, TLC
 
-CONSTANTS MaxWorkers, Calls, PanicUnits, CloseLock, WakeOnError
+CONSTANTS MaxWorkers, Calls, PanicUnits, CloseLock, WakeOnError, PanicGuard
 
 Workers == 1..MaxWorkers
 NoneV == 99
@@ -222,7 +222,10 @@ WWake(w) ==       \* CvWake: notified and Q free: re-acquire, loop: pop attempt 
   /\ W[w].pc = "sleep" /\ w \in Q.notified /\ Q.owner = 0 /\ PopOrCheck(w) /\ UNCHANGED <<CH, SH, C>>
 WInc(w) ==        \* AAdd(active, +1); the decode itself touches no runtime object
   /\ W[w].pc = "inc" /\ SH' = [SH EXCEPT !.active = @ + 1]
-  /\ W' = WGo(w, CASE IsPanic(W[w].item) -> "dropTx" [] IsBad(W[w].item) -> "decErr" [] OTHER -> "send")
+  \* a panic unwinds the worker: with the panic guard its Drop runs the error path (without the decrement of
+  \* `active`); without it the thread just drops its Sender and is gone
+  /\ W' = WGo(w, CASE IsPanic(W[w].item) -> (IF PanicGuard THEN "esLock" ELSE "dropTx")
+                    [] IsBad(W[w].item) -> "decErr" [] OTHER -> "send")
   /\ UNCHANGED <<Q, CH, C>>
 WSend(w) ==       \* Send(CH)
   /\ W[w].pc = "send"
